@@ -17,6 +17,29 @@ namespace impl {
 	#ifndef CPPCMS_WIN32
 	booster::intrusive_ptr<base_cache> CPPCMS_API process_cache_factory(size_t memory,unsigned items);
 	#endif
+#ifdef CPPCMS_VERIF
+} // impl
+} // cppcms
+#include <vector>
+#include <string>
+namespace cppcms {
+namespace impl {
+	// Verification hook (guarded): consistent snapshot of a memory cache taken under its own exclusive lock.
+	struct verif_cache_entry {
+		std::string key,value;
+		std::vector<std::string> triggers;
+		time_t deadline;
+		uint64_t generation;
+	};
+	struct verif_cache_dump_result {
+		std::vector<verif_cache_entry> lru_order; // most recently used first
+		unsigned size,triggers_count,limit;
+		bool process_shared;
+		long long shm_free,shm_max_chunk,shm_size;
+		std::string inconsistency; // empty if the indexes agree
+	};
+	bool CPPCMS_API verif_cache_dump(base_cache *c,verif_cache_dump_result &out);
+#endif
 } // impl
 } // cppcms
 
